@@ -527,4 +527,119 @@ theorem T05_5_operands (d : Diagram) (h : ∀ n ∈ d.nodes, n.nfree = 0) :
   simp only []
   refine ⟨by rw [this.2.2]; simp, by rw [this.2.1]; rfl⟩
 
+
+/-! ## collection axes: alignment from the right (the part of `calculate` that `T05_5_operands` leaves out) -/
+
+
+theorem push_front (offset : Nat) (ks : List Nat) (r0 : List Nat) :
+    ks.foldl (fun acc k => (offset + k) :: acc) r0 = (ks.reverse.map (offset + ·)) ++ r0 := by
+  induction ks generalizing r0 with
+  | nil => simp
+  | cons k ks ih => simp [List.foldl_cons, ih]
+
+theorem matched_list (nf L : Nat) :
+    ((List.range nf).reverse.take L).zipIdx = (List.range (min L nf)).map fun i => (nf - 1 - i, i) := by
+  apply List.ext_getElem
+  · simp
+  · intro i h1 h2
+    simp at h1 h2 ⊢
+
+/-- setting the positions `offset + nf - 1 - i` (i < m) one after the other -/
+theorem set_fold (ind : List Nat) (offset nf m : Nat) (v : Nat → Nat) (hm : m ≤ nf) (hlen : offset + nf ≤ ind.length) :
+    let res := ((List.range m).map fun i => (nf - 1 - i, i)).foldl (fun acc (kj : Nat × Nat) => acc.set (offset + kj.1) (v kj.2)) ind
+    res.length = ind.length ∧
+    (∀ j, j < m → res.getD (offset + (nf - 1 - j)) 0 = v j) ∧
+    (∀ q, (∀ j, j < m → q ≠ offset + (nf - 1 - j)) → res.getD q 0 = ind.getD q 0) := by
+  induction m with
+  | zero => simp
+  | succ m ih =>
+    obtain ⟨h1, h2, h3⟩ := ih (by omega)
+    simp only [List.range_succ, List.map_append, List.map_cons, List.map_nil, List.foldl_append, List.foldl_cons, List.foldl_nil]
+    refine ⟨by simpa using h1, ?_, ?_⟩
+    · intro j hj
+      by_cases hjm : j = m
+      · subst hjm
+        simp only [List.getD_eq_getElem?_getD, List.getElem?_set, if_true]
+        rw [if_pos (by rw [h1]; omega)]
+        rfl
+      · have hlt : j < m := by omega
+        have hne : offset + (nf - 1 - m) ≠ offset + (nf - 1 - j) := by omega
+        simp only [List.getD_eq_getElem?_getD, List.getElem?_set, hne, if_false] at *
+        exact h2 j hlt
+    · intro q hq
+      have hne : offset + (nf - 1 - m) ≠ q := fun h => hq m (by omega) h.symm
+      simp only [List.getD_eq_getElem?_getD, List.getElem?_set, hne, if_false] at *
+      exact h3 q (fun j hj => hq j (by omega))
+
+
+theorem unmatched_list (nf L : Nat) : ((List.range nf).reverse.drop L).reverse = List.range (nf - L) := by
+  apply List.ext_getElem
+  · simp
+  · intro i h1 h2
+    simp at h1 h2 ⊢
+    omega
+
+/-- **T05.5 (collection axes)**: one step of the per-node loop of `calculate`.  If the free (collection) axes of the node still
+    carry their own numbers, then afterwards the j-th free axis from the right carries the j-th free label from the right,
+    and the free labels collected so far only grow at the front -/
+theorem T05_5_calcStep_align (st : CalcState) (node : Node) (ind : List Nat × List Nat) (offset : Nat)
+    (hfree : ∀ k, k < node.nfree → st.indices.getD (offset + k) 0 = offset + k)
+    (hlen : offset + node.nfree ≤ st.indices.length) :
+    (calcStep st node ind offset).r0
+        = (List.range (node.nfree - st.r0.length)).map (offset + ·) ++ st.r0 ∧
+    ∀ j, j < node.nfree →
+      (calcStep st node ind offset).indices.getD (offset + (node.nfree - 1 - j)) 0
+        = (calcStep st node ind offset).r0.getD ((calcStep st node ind offset).r0.length - 1 - j) 0 := by
+  have hr0 : (calcStep st node ind offset).r0
+      = (List.range (node.nfree - st.r0.length)).map (offset + ·) ++ st.r0 := by
+    simp only [calcStep]
+    rw [push_front, unmatched_list]
+  refine ⟨hr0, ?_⟩
+  intro j hj
+  rw [hr0]
+  have hidx : (calcStep st node ind offset).indices
+      = ((List.range (min st.r0.length node.nfree)).map fun i => (node.nfree - 1 - i, i)).foldl
+          (fun acc (kj : Nat × Nat) => acc.set (offset + kj.1) (st.r0.getD (st.r0.length - kj.2 - 1) 0)) st.indices := by
+    simp only [calcStep]
+    rw [matched_list]
+  rw [hidx]
+  obtain ⟨-, h2, h3⟩ := set_fold st.indices offset node.nfree (min st.r0.length node.nfree)
+    (fun i => st.r0.getD (st.r0.length - i - 1) 0) (Nat.min_le_right _ _) hlen
+  simp only [List.length_append, List.length_map, List.length_range]
+  by_cases hjL : j < st.r0.length
+  · -- matched with an earlier free label
+    rw [h2 j (by omega)]
+    simp only [List.getD_eq_getElem?_getD]
+    rw [List.getElem?_append_right (by simp; omega)]
+    simp only [List.length_map, List.length_range]
+    congr 2
+    omega
+  · -- a new free label: the axis keeps its own number, which is pushed in front of r0
+    rw [h3 _ (by intro j' hj'; omega), hfree _ (by omega)]
+    simp only [List.getD_eq_getElem?_getD]
+    rw [List.getElem?_append_left (by simp; omega)]
+    have hi : node.nfree - st.r0.length + st.r0.length - 1 - j = node.nfree - 1 - j := by omega
+    have hlt : node.nfree - 1 - j < node.nfree - st.r0.length := by omega
+    rw [hi, List.getElem?_map, List.getElem?_range hlt]
+    rfl
+
+
+/-- along the whole per-node loop the free labels only grow at the front, so the label of the j-th collection axis from the
+    right, once fixed by `T05_5_calcStep_align`, stays the j-th free output label from the right -/
+theorem T05_5_r0_suffix (xs : List (Node × (List Nat × List Nat) × Nat)) (st : CalcState) :
+    ∃ pre, (xs.foldl (fun st x => calcStep st x.1 x.2.1 x.2.2) st).r0 = pre ++ st.r0 := by
+  induction xs generalizing st with
+  | nil => exact ⟨[], rfl⟩
+  | cons x xs ih =>
+    obtain ⟨pre, h⟩ := ih (calcStep st x.1 x.2.1 x.2.2)
+    have hstep : (calcStep st x.1 x.2.1 x.2.2).r0
+        = (List.range (x.1.nfree - st.r0.length)).map (x.2.2 + ·) ++ st.r0 := by
+      simp only [calcStep]
+      rw [push_front, unmatched_list]
+    exact ⟨pre ++ (List.range (x.1.nfree - st.r0.length)).map (x.2.2 + ·), by
+      simp only [List.foldl_cons]; rw [h, hstep]; simp⟩
+
+/-- non-vacuity: a point collection of shape (2, 3) joined with a single point through ε: the collection axis keeps label 0 -/
+example : (calcStep ⟨[0, 1, 2, 3, 4, 5], [], [], [], []⟩ ⟨1, [2, 3], [1], []⟩ ([], []) 0).r0 = [0] := by decide
+
 end Geo
